@@ -127,7 +127,15 @@ impl Lane for C15 {
             }
             _ => {}
         }
-        let body = Body { gen: gen.to_string(), order, seed: draw_seed(rng), p_bits: p.to_bits(), p: format!("{p:?}") };
+        let seed = draw_seed(rng);
+        if gen == "erdos_renyi" && (0.0..=1.0).contains(&p) && rng.chance(1, 2) {
+            // a draw that is exactly 0.0 matters at the ends of the p range
+            let boundary = (0..4u64).any(|t| Xoshiro256StarStar::new(seed.wrapping_add(t)).next_f64() == 0.0);
+            if boundary {
+                p = *rng.pick(&[1.0, 0.0, f64::MIN_POSITIVE, 1.0 - f64::EPSILON / 2.0]);
+            }
+        }
+        let body = Body { gen: gen.to_string(), order, seed, p_bits: p.to_bits(), p: format!("{p:?}") };
         // >= 4 schedules per (arguments, CPU count), one of them stalling a drawn worker
         let per = match tier {
             Tier::Quick => 4,
@@ -203,6 +211,12 @@ impl Lane for C15 {
         }
         // next_f64 in [0, 1) on the draws of this seed (pure; counted with the sequential checks)
         st.sequential_checks += 1;
+        if Xoshiro256StarStar::new(b.seed).next_f64() == 0.0 {
+            st.bump("probe/seed_whose_first_draw_is_exactly_zero");
+            if b.gen == "erdos_renyi" && p_of(b) == 1.0 {
+                st.bump("probe/p_1_with_a_draw_equal_to_zero");
+            }
+        }
         let mut x = Xoshiro256StarStar::new(b.seed);
         for i in 0..256 {
             let f = x.next_f64();
